@@ -35,7 +35,10 @@ MANIFEST = {
             "ESPIRiT maps (opaque) and random augmentations (SystemRandom, probability 0) are outside the quantifier; "
             "float rounding/overflow and NaN/Inf freedom are checked on the implementation only (bit-exact for 2^k, 1e-4 "
             "for arbitrary scales); shape tags are rank-agnostic (real 2-D/3-D shapes are checked on the implementation); an "
-            "all-zero masked k-space makes the percentile scaling raise (precondition, repro in the evidence notes).",
+            "all-zero masked k-space makes the percentile scaling raise (precondition, repro in the evidence notes). The model is "
+            "pure: applyMask with an all-true mask is a fresh value, so storage aliasing between sample entries and in-place "
+            "updates are invisible to the theorems; they are checked on the real modules only (stage-by-stage storage / "
+            "in-place checks, fully sampled and all-zero masks, masked_kspace x scaling_factor == apply_mask(raw k-space)).",
     "technique": "Lean 4 proof (type-soundness induction, decide +kernel on the builder) + AST translation bridge (rfl) + "
                  "differential correspondence + property oracle on the real pipeline",
 }
@@ -95,6 +98,27 @@ class _RecordingMask:
 def _mask_func(acc=4, cf=0.25):
     from direct.common.subsample import build_masking_function
     return build_masking_function("FastMRIRandom", accelerations=[acc], center_fractions=[cf])
+
+
+class _ConstMask:
+    """a mask function returning a constant mask (all zeros), in the layout of the repository's mask functions"""
+
+    def __init__(self, value: bool):
+        self.value = value
+
+    def __call__(self, shape, seed=None, return_acs=False):
+        shape = tuple(shape)
+        out = [1] * (len(shape) - 3) + [1, shape[-3], shape[-2], 1] if len(shape) > 3 else [1, shape[-3], shape[-2], 1]
+        return torch.full(out, bool(self.value), dtype=torch.bool)
+
+
+def mask_func_of(kind: str):
+    """random (acceleration 4) / full (the repository's mask function with acceleration 1: fully sampled) / zero"""
+    if kind == "full":
+        return _mask_func(1, 0.5)
+    if kind == "zero":
+        return _ConstMask(False)
+    return _mask_func()
 
 
 def default_flags() -> dict:
@@ -234,10 +258,10 @@ def _err(e: BaseException) -> str:
 
 # --------------------------------------------------------------------------------------------------
 # correspondence
-def _pipeline_case(ctx, rng, f: dict, nc, ns, h, w, crop_shape, eps_pow, pct, pad_to, border, zero_coil, bucket):
+def _pipeline_case(ctx, rng, f: dict, nc, ns, h, w, crop_shape, eps_pow, pct, pad_to, border, zero_coil, bucket, mask_fn=None):
     """whole composed pipeline with identity operators on dyadic data; masks are taken from the real run"""
     k = exact_kspace(rng, nc, ns, h, w, border=border, zero_coil=zero_coil)
-    rec = _RecordingMask(_mask_func(2, 0.5))
+    rec = _RecordingMask(mask_fn if mask_fn is not None else _mask_func(2, 0.5))
     eps = 2.0 ** eps_pow
     tr = build_real(f, rec, _ident, _ident, crop_shape=crop_shape, eps=eps, percentile=pct, pad_to=pad_to)
     smp = raw_sample(k, crop_shape=crop_shape if f["crop"] == 2 else None)
@@ -513,8 +537,14 @@ def correspondence(ctx: Ctx):
         if f["pad_coils"] and f["estimate_smaps"] and f["smap_type"] == 2:
             f["smap_type"] = 1
         bucket = "pipeline/" + ("ssl" if f["ssl"] else "sup") + ("/3d" if ns else "/2d") + ("/crop" if f["crop"] else "")
+        mk = rng.choice(["random", "random", "random", "full", "zero"])
+        if mk == "zero" and (f["percentile"] or f["ssl"]):
+            mk = "full"
+        if mk != "random":
+            bucket += "/mask-" + mk
         c = _pipeline_case(ctx, rng, f, nc, ns, h, w, crop_shape, rng.choice([-13, -13, -1, -2]),
-                           rng.choice([0.99, 0.9, 0.5]), pad_to, rng.choice([0, 0, 1]), rng.random() < 0.25, bucket)
+                           rng.choice([0.99, 0.9, 0.5]), pad_to, rng.choice([0, 0, 1]), rng.random() < 0.25, bucket,
+                           mask_fn=None if mk == "random" else mask_func_of(mk))
         if c is None:
             ctx.hist["pipeline/skipped-all-zero-masked-kspace"] = ctx.hist.get("pipeline/skipped-all-zero-masked-kspace", 0) + 1
         else:
@@ -681,6 +711,21 @@ def _oracle(ctx: Ctx, deep: bool = False):
                    "percentile": rng.choice([0.99, 0.9]), "centered": rng.random() < 0.7}
             ctx.count(("ladder", tuple(flag_list(f)), cfg["seed"], tuple(cfg["shape"])), True, bucket="oracle/scale-ladder")
             yield from _guarded(check_scale_ladder(cfg), {"op": "scale_ladder", **cfg})
+    # (i'') fully sampled masks (acceleration 1) and all-zero masks: scale ladder, stage-by-stage aliasing / in-place
+    #       checks on the real modules, and masked_kspace × scaling_factor == apply_mask(raw k-space)
+    for mask, sk, pct, ssl in itertools.product(("full", "zero", "random"), (0, 1), (0, 1), (0, 1)):
+        if mask == "zero" and (pct or ssl):
+            continue            # percentile of an identically zero masked k-space raises (documented observation)
+        for _ in range(ctx.budget(1, 4)):
+            f = {**default_flags(), "scaling_key": sk, "percentile": pct, "ssl": ssl, "delete_kspace": 0,
+                 "recon": rng.randrange(6), "smap_type": rng.choice([1, 2]), "padding_eps": rng.choice([0, 1]),
+                 "delete_acs": rng.choice([0, 1])}
+            cfg = {"flags": f, "seed": rng.randrange(2 ** 31), "shape": [rng.choice([1, 3]), rng.choice([6, 8, 9]), rng.choice([6, 8, 11])],
+                   "percentile": rng.choice([0.99, 0.9]), "centered": rng.random() < 0.7, "mask": mask}
+            ctx.count(("mask-kind", mask, tuple(flag_list(f)), cfg["seed"], tuple(cfg["shape"])), True, bucket="oracle/mask-" + mask)
+            if not (mask == "zero" and sk == 0):
+                yield from _guarded(check_scale_ladder(cfg), {"op": "scale_ladder", **cfg})
+            yield from _guarded(check_stagewise(cfg), {"op": "stagewise", **cfg})
     # (v') a scaling factor of exactly zero (empty slice, or signal only where the mask does not sample): the safe
     #      division must leave every output finite (zero), never NaN/Inf
     for sk, mode in ((0, "all-zero"), (1, "all-zero"), (0, "unsampled")):
@@ -722,7 +767,7 @@ def _oracle(ctx: Ctx, deep: bool = False):
 
 def _build_for(cfg, mask_func=None):
     fwd, bwd = _ops(cfg.get("centered", True))
-    return build_real(cfg["flags"], mask_func or _mask_func(), fwd, bwd, crop_shape=tuple(cfg.get("crop_shape", (4, 4))),
+    return build_real(cfg["flags"], mask_func or mask_func_of(cfg.get("mask", "random")), fwd, bwd, crop_shape=tuple(cfg.get("crop_shape", (4, 4))),
                       percentile=cfg.get("percentile", 0.99), pad_to=cfg.get("pad_to"))
 
 
@@ -902,6 +947,69 @@ def check_scale_ladder(cfg):
         if s1 != s0 * sc:
             yield Violation("scaling-factor-pow2", f"scaling_factor {s0} -> {s1} under scale 2^{kpow} (expected {s0 * sc})",
                             {**rep, "kpow": kpow, "expected": s0 * sc, "observed": s1})
+
+
+def _storage(t: torch.Tensor) -> int:
+    return t.untyped_storage().data_ptr()
+
+
+def check_stagewise(cfg):
+    """Run the stages of the real composed transform one at a time.  After every stage: (a) no two distinct keys share
+    storage (the code documents no aliasing between sample entries); (b) a tensor that stays stored under a key the
+    stage does not rewrite keeps its values (no in-place modification of another entry).  At the end:
+    masked_kspace × scaling_factor == apply_mask(raw k-space, sampling_mask) and kspace × scaling_factor == raw k-space."""
+    import direct.data.transforms as T
+
+    f = cfg["flags"]
+    nc, h, w = cfg["shape"]
+    k = _int_sample(cfg["seed"], nc, h, w)
+    rep = {"op": "stagewise", **cfg}
+    tr = _build_for(cfg)
+    sample = raw_sample(k)
+    raw = None
+    for idx, st in enumerate(tr.transforms):
+        mod = getattr(st, "_transform", st)
+        name = type(mod).__name__
+        before = {str.__str__(kk): (id(v), v.clone()) for kk, v in sample.items() if isinstance(v, torch.Tensor)}
+        sample = run_real(st, sample)
+        own = set(str.__str__(x) for x in getattr(mod, "keys_to_normalize", [])) if name == "NormalizeModule" else set()
+        tensors = {str.__str__(kk): v for kk, v in sample.items() if isinstance(v, torch.Tensor)}
+        for kk, v in tensors.items():
+            if kk in before and before[kk][0] == id(v) and kk not in own and not torch.equal(before[kk][1], v):
+                yield Violation("inplace-modification-" + kk, f"stage {idx} ({name}) modifies the tensor stored under `{kk}` in place",
+                                {**rep, "stage": name, "key": kk})
+        seen: dict[int, str] = {}
+        for kk, v in tensors.items():
+            if v.numel() == 0:
+                continue
+            p = _storage(v)
+            if p in seen:
+                yield Violation("aliased-outputs", f"after stage {idx} ({name}) `{seen[p]}` and `{kk}` share storage",
+                                {**rep, "stage": name, "keys": [seen[p], kk]})
+            seen[p] = kk
+        if name == "ToTensor":
+            raw = sample["kspace"].clone()
+    out = sample
+    for kk in _tensor_keys(out):
+        if not torch.isfinite(out[kk].float()).all():
+            yield Violation("nonfinite-" + kk, f"`{kk}` contains NaN/Inf (mask kind {cfg.get('mask')})", {**rep, "key": kk})
+    pad = out.get("padding")
+    simple = raw is not None and not f["crop"] and not f["pad_coils"] and not f["compress_coils"] and (pad is None or not pad.any())
+    if simple and "scaling_factor" in out:
+        sf = out["scaling_factor"]
+        if "kspace" in out and not f["ssl"] and float(sf) != 0 and not _close(out["kspace"] * sf, raw, 1e-5):
+            yield Violation("kspace-times-scaling-factor", "kspace × scaling_factor != raw k-space", rep)
+        if "masked_kspace" in out and float(sf) != 0:
+            exp, _ = T.apply_mask(raw, out["sampling_mask"])
+            if not _close(out["masked_kspace"] * sf, exp, 1e-5) and (exp.abs().max() > 0 or (out["masked_kspace"] * sf).abs().max() > 0):
+                yield Violation("masked-times-scaling-factor", "masked_kspace × scaling_factor != apply_mask(raw k-space, sampling_mask)",
+                                rep)
+        if f["ssl"] and float(sf) != 0 and "input_kspace" in out:
+            both = torch.where(out["input_sampling_mask"], out["input_kspace"], out["kspace"])
+            m_all = out["input_sampling_mask"] | out["target_sampling_mask"]
+            exp, _ = T.apply_mask(raw, m_all)
+            if not _close(both * sf, exp, 1e-5):
+                yield Violation("masked-times-scaling-factor", "SSL: (input ∪ target k-space) × scaling_factor != apply_mask(raw k-space)", rep)
 
 
 def check_zero_sf(cfg):
@@ -1088,11 +1196,14 @@ def replay(rep: dict) -> bool:
                                           "percentile") if kk in rep}
             return any(True for _ in check_config(cfg, k))
         if op == "scale_ladder":
-            cfg = {kk: rep[kk] for kk in ("flags", "seed", "shape", "percentile", "centered") if kk in rep}
+            cfg = {kk: rep[kk] for kk in ("flags", "seed", "shape", "percentile", "centered", "mask") if kk in rep}
             return any(True for _ in check_scale_ladder(cfg))
         if op == "zero_scaling_factor":
             cfg = {kk: rep[kk] for kk in ("flags", "seed", "shape", "mode", "centered") if kk in rep}
             return any(True for _ in check_zero_sf(cfg))
+        if op == "stagewise":
+            cfg = {kk: rep[kk] for kk in ("flags", "seed", "shape", "percentile", "centered", "mask") if kk in rep}
+            return any(True for _ in check_stagewise(cfg))
         if op == "same_crop":
             cfg = {kk: rep[kk] for kk in ("seed", "name", "shape", "crop", "sampler")}
             return any(True for _ in check_same_crop(cfg))
